@@ -572,50 +572,87 @@ class Trace:
     pass
 
 
+def _reset_ctx_for_leg(ctx):
+    ctx.block = -1
+    ctx.events, ctx.attempts, ctx.cur, ctx.blocks, ctx.comm, ctx.cc, ctx.problems = [], [], {}, [], [], [], []
+    ctx.lockstep_bad = None
+    if hasattr(ctx, 'stat_writes'):
+        ctx.stat_writes = []
+
+
+class LegView:
+    """The observations of one run() call (one leg) -- same attribute names the oracles use on Ctx."""
+
+    def __init__(self, ctx):
+        for k in ('events', 'attempts', 'blocks', 'comm', 'cc', 'problems', 'lockstep_bad', 'faults', 'sc', 'res', 'log'):
+            setattr(self, k, getattr(ctx, k))
+        if hasattr(ctx, 'stat_writes'):
+            self.stat_writes = ctx.stat_writes
+
+
 def run(sc, res=None, log=None, extra_hooks=(), counting=False, keep_ctrl=False):
-    """Build the controller described by sc['config'], run it under sc['faults'], return the Trace."""
+    """Build the controller described by sc['config'], run it under sc['faults'], return the Trace.
+    With config.run.legs = [T1, T2, ...] the same controller is run leg after leg, each continuing from the returned
+    value and time of the previous one; tr.legs holds one Trace per leg (tr itself is the last leg)."""
     res = res if res is not None else Result()
     log = log if log is not None else EventLog()
     ctx = Ctx(sc, res, log)
     CURRENT_CTX[0] = ctx
-    tr = Trace()
-    tr.ctx, tr.res, tr.log = ctx, res, log
-    tr.exc = None
-    tr.ret = None
-    tr.stats = None
     warnings.simplefilter('ignore')
     np.seterr(all='ignore')
     if sc.get('spy_stats'):
         install_stats_spy()
     ctrl = build(sc, ctx, extra_hooks=extra_hooks, counting=counting)
-    tr.ctrl = ctrl
     rc = sc['config']['run']
+    ends = list(rc.get('legs') or []) + [rc['Tend']]
+    t_start = rc['t0']
     u0 = initial_value(ctrl, rc.get('u0', 'exact'), rc['t0'])
-    tr.u0_obj = u0
-    ctx.caller_u0 = u0
-    tr.u0_before = np.array(u0)
-    try:
-        uend, stats = ctrl.run(u0=u0, t0=rc['t0'], Tend=rc['Tend'])
-        tr.ret, tr.stats = uend, stats
-        tr.ret_copy = None if uend is None else np.array(uend)
-    except StepCapExceeded as e:
-        tr.exc = ('StepCapExceeded', str(e))
-    except Exception as e:  # noqa: BLE001 - classified by the oracles (ConvergenceError is a legal outcome)
-        tr.exc = (type(e).__name__, str(e)[:300])
-        if tr.stats is None:
+    legs = []
+    for li, t_end in enumerate(ends):
+        if li > 0:
+            if not t_end > t_start + 1e-9 * max(1.0, abs(t_start)):
+                continue
+            _reset_ctx_for_leg(ctx)
+        tr = Trace()
+        tr.res, tr.log = res, log
+        tr.exc, tr.ret, tr.stats, tr.ret_copy = None, None, None, None
+        tr.t0, tr.Tend, tr.leg = t_start, t_end, li
+        tr.ctrl = ctrl
+        tr.u0_obj = u0
+        ctx.caller_u0 = u0
+        tr.u0_before = np.array(u0)
+        log.add('leg', li, t_start, t_end)
+        try:
+            uend, stats = ctrl.run(u0=u0, t0=t_start, Tend=t_end)
+            tr.ret, tr.stats = uend, stats
+            tr.ret_copy = None if uend is None else np.array(uend)
+        except StepCapExceeded as e:
+            tr.exc = ('StepCapExceeded', str(e))
+        except Exception as e:  # noqa: BLE001 - classified by the oracles (ConvergenceError is a legal outcome)
+            tr.exc = (type(e).__name__, str(e)[:300])
             try:
                 tr.stats = ctrl.return_stats()
             except Exception:  # noqa: BLE001
                 tr.stats = None
-    tr.u0_after = np.array(u0)
-    log.add('end', tr.exc, None if tr.ret is None else bdigest(tr.ret), len(ctx.attempts))
-    res['ticks'] = ctx.seq
-    acc = [a for a in ctx.attempts if a.get('post') and a.get('accepted', False)]
-    res['model_time'] = float(sum(a['dt'] for a in acc))
-    res['info']['attempts'] = len(ctx.attempts)
-    res['info']['blocks'] = len(ctx.blocks)
+        tr.u0_after = np.array(u0)
+        log.add('end', tr.exc, None if tr.ret is None else bdigest(tr.ret), len(ctx.attempts))
+        tr.ctx = LegView(ctx) if len(ends) > 1 else ctx
+        res['ticks'] = ctx.seq
+        acc = [a for a in ctx.attempts if a.get('post') and a.get('accepted', False)]
+        res['model_time'] += float(sum(a['dt'] for a in acc))
+        res['info']['attempts'] = res['info'].get('attempts', 0) + len(ctx.attempts)
+        res['info']['blocks'] = res['info'].get('blocks', 0) + len(ctx.blocks)
+        legs.append(tr)
+        if tr.exc is not None or tr.ret is None:
+            break
+        # continue from the returned value and the time actually reached
+        u0 = tr.ret
+        t_start = (acc[-1]['t'] + acc[-1]['dt']) if acc else t_end
+    tr = legs[-1]
+    tr.legs = legs
     if not keep_ctrl:
-        tr.ctrl = None
+        for t in legs:
+            t.ctrl = None
         ctx.ctrl = None
     return tr
 
